@@ -140,8 +140,8 @@ func runC14(w *World) {
 		// wait until corebgp wrote something on it or closed it
 		w.WaitUntil("c14.first", time.Minute, func() bool { return c.OutLen() > 0 || c.LocalClosed() })
 		w.Quiesce()
-		if len(capLists) == 0 {
-			w.HarnessError("C14: connection %s handled without a GetCapabilities call", c)
+		if len(capLists) != k+1 {
+			w.Violate("C14/capabilities/not-requested-for-this-connection", "connection %d of the peer was handled after %d GetCapabilities call(s) in total: every OPEN must carry what GetCapabilities returns for that connection, not a cached answer", k+1, len(capLists))
 			return
 		}
 		plugCaps := capLists[len(capLists)-1]
